@@ -19,7 +19,7 @@ func init() {
 				"Not decided: the kernel's own order; consumer pacing.",
 			Rule:        "obligations per go statement, per event-send site, per loop-order fact, per would-be buffering construct (expected count 0, with positive controls), per len/cap(chan) site",
 			Assumptions: []string{"go/types + go/ssa", "a blocking channel send in program order preserves order (Go channel FIFO semantics)"},
-			MinObl:      10,
+			MinObl:      11,
 		},
 		Configs: tiered(linuxQuick, linuxAll),
 		Run:     runC03,
